@@ -4,6 +4,7 @@ import BeyondVerif.Generated.LambertFnF
 import BeyondVerif.Generated.LeoFnF
 import BeyondVerif.Generated.LtanFnF
 import BeyondVerif.Generated.WalkerFnF
+import BeyondVerif.Generated.BetaFnF
 namespace BeyondVerif.F
 open BeyondVerif.NumFloat
 set_option linter.unusedVariables false
@@ -11,8 +12,9 @@ set_option linter.unusedVariables false
 /-!
 Model of the mission-design helpers of beyond/utils (lambert.py, constellation.py, beta.py,
 interplanetary.py) on top of the scalar formulas translated from the source
-(Generated/LambertFn, LeoFn, LtanFn, WalkerFn).  Hand-written here: 3-vector algebra, the two
-loops of `_lambert`, the generator loops of the Walker classes, `beta` and `bplane`.
+(Generated/LambertFn incl. the direction / way selection `lamDthetaSrc`, LeoFn, LtanFn, WalkerFn, BetaFn).  Hand-written here:
+3-vector algebra, the two loops of `_lambert`, the generator loops of the Walker classes, the J2 propagator object as a
+state machine, and `bplane`.
 -/
 
 structure V3 where
@@ -187,14 +189,10 @@ def walkerFleet (delta : Bool) (total planes spacing : Nat) (raan0 : R) : List (
 
 /-! ## beta angle -/
 
-/-- `np.clip(x, lo, hi)` (a NaN passes through, as in numpy) -/
-def clipR (x lo hi : R) : R := if x < lo then lo else if x > hi then hi else x
-
-/-- `beta`: `arcsin(clip(w.ref / (|w||ref|), -1, 1))` with `w = p × v` (clip: fix 1d112fc) -/
+/-- `beta`: `arcsin(clip(w.ref / (|w||ref|), -1, 1))` with `w = p × v` (clip: fix 1d112fc) — the arithmetic of `beta` as
+translated from the source (`betaSrc`, `clipR`: Generated/BetaFn); closed form: `betaAngle_eq` (Props/C19Geom) -/
 def betaAngle (p v ref : V3) : R :=
-  let w := V3.cross p v
-  let sin_beta := V3.dot w ref / (V3.norm w * V3.norm ref)
-  asin (clipR sin_beta (-1) 1)
+  betaSrc p.x p.y p.z v.x v.y v.z ref.x ref.y ref.z
 
 /-! ## B-plane -/
 
